@@ -125,8 +125,10 @@ def run(R):
         n += 1
         ok = False
         for at, pol, b in fn.guard_atoms(pos):
-            a = strip_casts(at)
-            if is_atomic_node(F, fn, a, CNT, ("load", "operator(conv)")) and not pol:
+            # `while (count.load())` left through its false edge, `if (count.load() == 0) break;`,
+            # `if (count.load() != 0) return false;` ...: the counter was read as zero
+            c = comparison_of(at, pol, lambda x: is_atomic_node(F, fn, x, CNT, ("load", "operator(conv)")))
+            if c and c[0] == "==" and const_val(c[1]) == 0:
                 ok = True
         R.ob("C05.after-done", fn, ev, ok, "called only after the counter was read zero" if ok else "exceptions are checked before completion: one captured later would be dropped or delivered with work outstanding",
              sitekey="call:testAndResetException", why="completion must be checked before exceptions")
